@@ -4,7 +4,8 @@
    on every generated spelling).  model/Callable.v: the modifiers over callables with the closures regenerated from the source.
    model/Evaluator.v: custom formulas over their mutable symbol tables. *)
 From Coq Require Import Reals List QArith.
-From V Require Import lib.Common lib.RLib model.DefnSyntax model.Callable model.Evaluator proof.C09Syntax proof.C09 proof.C12.
+From Coq Require Import ZArith.
+From V Require Import lib.Common lib.RLib model.DefnSyntax model.Lexer model.Ini model.Callable model.Evaluator proof.C09Syntax proof.C09Lexer proof.IniProofs proof.C09Ini proof.C09 proof.C12.
 Import ListNotations.
 
 (* --- syntax: every definition tree (ranges, form instances, nested modifiers) is what its text parses to, and a text
@@ -14,6 +15,55 @@ Proof. exact parse_print. Qed.
 Theorem c09_parse_sound : forall ts d, parse_value ts = Some d -> ts = print_defn d.
 Proof. exact parse_sound. Qed.
 Print Assumptions c09_parse_print.
+
+(* --- characters (model/Lexer.v): the text of a definition is cut into tokens the same way whatever whitespace separates them.
+       ts: any tokens whose identifier / number lexemes are lexemes (tok_ok); sp: the whitespace written before each token,
+       tr: after the last one; seps_ok: whitespace only, and at least one character between two word-like tokens.  Then the
+       lexer returns exactly ts, so the reading (lexer, word-end flags, parser) is the parse of ts: two renderings that differ
+       only in whitespace read the same, and every definition tree is read back from every rendering of its printed tokens,
+       each label and number occurrence spelled in any way that names it (idn, numv: the label tables and float()). *)
+Theorem c09_lex_render : forall ts sp tr, forallb tok_ok ts = true -> seps_ok false ts sp = true -> forallb is_ws tr = true ->
+  lex (render ts sp tr) = Some ts.
+Proof. exact lex_render. Qed.
+Theorem c09_whitespace_invariant : forall idn numv ts sp tr sp' tr', forallb tok_ok ts = true ->
+  seps_ok false ts sp = true -> forallb is_ws tr = true -> seps_ok false ts sp' = true -> forallb is_ws tr' = true ->
+  read_value idn numv (render ts sp tr) = read_value idn numv (render ts sp' tr').
+Proof. exact whitespace_invariant. Qed.
+Theorem c09_text_roundtrip : forall idn numv d cts sp tr, map (abs_tok idn numv) cts = print_defn d -> forallb tok_ok cts = true ->
+  seps_ok false cts sp = true -> forallb is_ws tr = true -> read_value idn numv (render cts sp tr) = Some d.
+Proof. exact text_roundtrip. Qed.
+Print Assumptions c09_text_roundtrip.
+(* ... and for ANY text, well formed or not: a non-empty run of whitespace may be replaced by any other (blanks, tabs, the
+   newline configparser puts between the stripped lines of a continued value), whitespace at the ends may be dropped, and a
+   definition written over several lines reads like its pieces joined by a blank *)
+Theorem c09_ws_run : forall idn numv a w1 w2 b, forallb is_ws w1 = true -> forallb is_ws w2 = true -> w1 <> [] -> w2 <> [] ->
+  read_value idn numv (a ++ w1 ++ b) = read_value idn numv (a ++ w2 ++ b).
+Proof. exact read_ws_run. Qed.
+Theorem c09_ws_ends : forall idn numv w1 a w2, forallb is_ws w1 = true -> forallb is_ws w2 = true ->
+  read_value idn numv (w1 ++ a ++ w2) = read_value idn numv a.
+Proof. exact read_ws_ends. Qed.
+Theorem c09_continuation_lines : forall idn numv ps w, forallb is_ws w = true -> w <> [] ->
+  read_value idn numv (join [10%Z] ps) = read_value idn numv (join w ps).
+Proof. exact read_lines. Qed.
+Print Assumptions c09_continuation_lines.
+
+(* --- lines (model/Ini.v: configparser's line parser as configured by the repository, and the repository's optionxform):
+       the option text before the first "=" or ":" is the key, whichever of the two is written and whatever blanks surround it;
+       blanks and tabs anywhere in a key do not matter; and a one-section, one-option file whose value continues over any
+       number of more deeply indented lines yields a value that reads like its pieces written on one line *)
+Theorem c09_delimiter_choice : forall k w1 d w2 x, forallb (fun c => negb (is_delim c)) k = true -> all_sp w1 -> is_delim d = true -> all_sp w2 ->
+  option_of (k ++ w1 ++ d :: w2 ++ x) = match rstrip k with [] => None | k' => Some (xform k', strip x) end.
+Proof. exact option_line. Qed.
+Theorem c09_key_blanks : forall l1 l2, filter nb l1 = filter nb l2 -> xform l1 = xform l2.
+Proof. exact xform_blanks. Qed.
+Theorem c09_file_value_reading : forall idn numv hi h oi key kc k' w1 d w2 x conts, key = kc :: k' ->
+  all_sp hi -> h <> [] -> forallb (fun c => negb (c =? 93)%Z) h = true ->
+  all_sp oi -> is_sp kc = false -> kc <> 91%Z -> kc <> 35%Z -> kc <> 59%Z -> forallb (fun c => negb (is_delim c)) key = true ->
+  all_sp w1 -> is_delim d = true -> all_sp w2 -> Forall (plain_line (length oi)) conts ->
+  exists v, parse_ini ((hi ++ 91%Z :: h ++ [93%Z]) :: (oi ++ key ++ w1 ++ d :: w2 ++ x) :: conts) = Some [(h, [(xform (rstrip key), v)])]
+            /\ read_value idn numv v = read_value idn numv (join [32%Z] (strip x :: map strip conts)).
+Proof. exact file_value_reading. Qed.
+Print Assumptions c09_file_value_reading.
 
 (* --- modifiers: sum / product / pow of any number of argument potentials, each an expression of any nesting depth, are the
        pointwise left-to-right sum / product / power; trans(f, as.constant X) is f(r + X) *)
@@ -52,3 +102,28 @@ Example c09_example :
   let d := RDefn (Some (Gt, 0%Z)) (RMod 7 (RDefn None (RInst 1 [1; 2]%Z) []) [RDefn (Some (Ge, 3%Z)) (RInst 2 [4%Z]) []]) [((Gt, 5%Z), RInst 3 [])] in
   parse_value (print_defn d) = Some d /\ parse_value [TId 1; TLp; TId 2] = None /\ parse_value [TId 1; TNum 2%Z; TRp] = None.
 Proof. repeat split; vm_compute; reflexivity. Qed.
+
+(* non-vacuity, characters: "sum(as.buck 1.5 -2e0,>=3 f)" written as " sum (\n as.buck\t1.5 -2e0 ,>=3 f)  " lexes to its eleven
+   tokens and reads as the tree; "as.buck 1.5.3" and ">1x" show the word-end look-ahead: the first is refused, the second reads *)
+Local Open Scope Z_scope.
+Example c09_text_example :
+  let s_sum := [115; 117; 109] in let s_buck := [97; 115; 46; 98; 117; 99; 107] in let s_f := [102] in
+  let n15 := [49; 46; 53] in let n2 := [45; 50; 101; 48] in let n3 := [51] in
+  let idn := fun s : list Z => length s in let numv := fun s : list Z => Z.of_nat (length s) in
+  let cts := [CId s_sum; CLp; CId s_buck; CNum n15 true; CNum n2 true; CComma; CGe; CNum n3 true; CId s_f; CRp] in
+  let sp := [[32]; [32]; [10; 32]; [9]; [32]; [32]; []; []; [32]; []] in
+  forallb tok_ok cts = true /\ seps_ok false cts sp = true /\
+  read_value idn numv (render cts sp [32; 32]) = Some (RDefn None (RMod 3 (RDefn None (RInst 7 [3; 4]%Z) []) [RDefn (Some (Ge, 1%Z)) (RInst 1 []) []]) []) /\
+  read_value idn numv (s_buck ++ [32] ++ n15 ++ [46; 51]) = None /\
+  read_value idn numv [62; 49; 120] = Some (RDefn (Some (Gt, 1%Z)) (RInst 1 []) []).
+Proof. vm_compute. repeat split; reflexivity. Qed.
+
+(* non-vacuity, lines: "[Pair]" / "  A - B :  sum(as.buck 1 2 3," / "        as.lj 1 2)" -- an indented key with blanks, ":" and a
+   continuation line -- parses to section Pair, key "A-B", value "sum(as.buck 1 2 3,\nas.lj 1 2)" *)
+Example c09_lines_example :
+  let s (l : list Z) := l in
+  parse_ini [ [91; 80; 97; 105; 114; 93];
+              [32; 32; 65; 32; 45; 32; 66; 32; 58; 32; 32; 115; 117; 109; 40; 97; 115; 46; 98; 117; 99; 107; 32; 49; 32; 50; 32; 51; 44];
+              [32; 32; 32; 32; 32; 32; 97; 115; 46; 108; 106; 32; 49; 32; 50; 41] ]
+  = Some [([80; 97; 105; 114], [([65; 45; 66], [115; 117; 109; 40; 97; 115; 46; 98; 117; 99; 107; 32; 49; 32; 50; 32; 51; 44; 10; 97; 115; 46; 108; 106; 32; 49; 32; 50; 41])])].
+Proof. vm_compute. reflexivity. Qed.
